@@ -1,5 +1,6 @@
 import MLPE.Proofs.Safe
 import MLPE.Proofs.EngTasks
+import MLPE.Proofs.Ledger
 
 /-!
 # C14 — lifecycle events form a well-formed history consistent with the run
@@ -135,5 +136,23 @@ theorem C14_oneof_reports_are_truthful (P : Program) (val : Node → Option Val)
     (∀ e, Obs.pcomplete (.error e) ∈ log → ErrCause P val e) := by
   have hall := (safe_exec hone hsol h).2
   exact ⟨fun n hm => hall _ hm, fun n e hm => hall _ hm, fun e hm => hall _ hm⟩
+
+
+/-! ### Over a whole run (all programs, all schedules) — `Proofs/Ledger.lean` -/
+
+/-- **C14, every program, every schedule**: in every execution, every successful `on_node_complete(n, error=None)` is
+paid for by an `on_node_start(n)` of its own — a node execution reports success at most once, whatever the number of
+attempts, suspensions inside callbacks, scopes that request the node or cancellations — and `on_node_start` is emitted
+exactly as often as the storage counts invocations of the node -/
+theorem C14_one_success_per_start (P : Program) (s : St) (log : List Obs) (h : Exec P s log) (n : Node) :
+    cnt (evO n) log ≤ cnt (evN n) log ∧ cnt (evN n) log = s.invCount n :=
+  (ledger h n).2
+
+/-- … hence (C04) a node outside every recurrent subgraph has at most one `on_node_start` and at most one successful
+`on_node_complete` per run -/
+theorem C14_at_most_one_start_outside_recurrent_subgraphs (P : Program) (s : St) (log : List Obs) (h : Exec P s log)
+    (n : Node) (hinv : s.invCount n ≤ 1) : cnt (evN n) log ≤ 1 ∧ cnt (evO n) log ≤ 1 := by
+  have := ledger h n
+  omega
 
 end MLPE.Eng
